@@ -132,7 +132,8 @@ CURATED = [
     "2.9999999999x + 1", "1e5", "2e", "x e", "(((((x)))))", "((x + 1)(x - 1))^2", "x(", "()", "( )", "2 +", "+ 2", "2 2", "x 2", "(2)(3)",
     "2(3)", "(2)3", "x!", "(3)!", "2!!", "!", "^", "=", "2 = ", "= 2", "x ^ ^ 2", "sgn", "sgn x", "sgn()", "sgn(x", "abs(x)", "-(-x)", "--x",
     "- - x", "2 - -x", "2--2", "2 - - 2", "4x^2^", "1/0", "x/(y-y)", "0x = 0", "4 + -3", "4 +- 3", "4 -+ 3", "a+b=c+d=e", "2x^(1+1)",
-    "x^(y)", "x^y^z", "(x+1)^(y-1)", "2^x y", "xy z^2 w", "3xyz", "-3xyz^2", "1 000", "1,000", "x_1", "x#", "٣", "é + 1",
+    "x^(y)", "x^y^z", "(x^y)^z", "(2^3)^2", "((x^2)^3)^2", "(x^-2)^y", "3 / -((x + 1) * y)", "x^-((x + 1) * y)", "2 / -((x - 1) / y)", "-((x + 1) * y) / 3",
+    "(-x)^2", "(2x)^2", "-(3^2)", "-(3^2 * x)", "-(2!)", "4 - -(x * y)", "(x / y) / z", "x / (y / z)", "x / (y * z)", "(x * y) / z", "x - (y - z)", "x - (y + z)", "(x+1)^(y-1)", "2^x y", "xy z^2 w", "3xyz", "-3xyz^2", "1 000", "1,000", "x_1", "x#", "٣", "é + 1",
 ]
 
 
